@@ -183,6 +183,27 @@ fn main() {
             let b = witgen::build_component(&libs, v["world"].as_str().unwrap(), "w").expect("build");
             std::fs::write(&ctx.scratch, b).unwrap();
         }
+        "debug-uses" => {
+            // worker debug-uses --replay-input f.json ; f.json = {"lib":[..texts],"world":"text"} : prints the `uses` wac decodes
+            let v = ctx.replay_input.clone().expect("input");
+            let libs: Vec<(String, String)> = v["lib"].as_array().unwrap().iter().enumerate().map(|(i, t)| (format!("lib{i}"), t.as_str().unwrap().to_string())).collect();
+            let b = witgen::build_component(&libs, v["world"].as_str().unwrap(), "w").expect("build");
+            let mut types = wac_types::Types::default();
+            let pkg = wac_types::Package::from_bytes("test:x", None, b.clone(), &mut types).expect("decode");
+            let w = &types[pkg.ty()];
+            for (dir, map) in [("import", &w.imports), ("export", &w.exports)] {
+                for (n, k) in map {
+                    if let wac_types::ItemKind::Instance(id) = k {
+                        let i = &types[*id];
+                        let uses: Vec<String> = i.uses.iter().map(|(l, u)| format!("{l} <- {}.{}", types[u.interface].id.clone().unwrap_or_default(), u.name.clone().unwrap_or_else(|| l.clone()))).collect();
+                        println!("{dir} {n}: exports {:?} uses {uses:?}", i.exports.keys().collect::<Vec<_>>());
+                    }
+                }
+            }
+            if std::env::var("DUMP_WAT").is_ok() {
+                println!("{}", wasmprinter::print_bytes(&b).unwrap());
+            }
+        }
         "debug-parse" => {
             // worker debug-parse --replay-input file.json  (json string = source text)
             let src = ctx.replay_input.as_ref().and_then(|v| v.as_str()).expect("json string").to_string();
